@@ -527,7 +527,10 @@ pub fn plan_world(ws: u64, corpus: &Corpus, o: &PlanOpts) -> World {
         weights = [2, 1, 1, 1, 1, 1, 2];
     }
     let total: u64 = weights.iter().sum();
-    let k = rng.range(4, o.max_inputs.max(4));
+    // 1 world in 40 is a marathon of several hundred *different* inputs per process: tables
+    // that fill up, caches with a capacity, counters that wrap
+    let marathon = !control && rng.chance(1, 40);
+    let k = if marathon { rng.range(150, 420) } else { rng.range(4, o.max_inputs.max(4)) };
     let mut items = Vec::new();
     let mut classes = Vec::new();
     for _ in 0..k {
@@ -551,12 +554,12 @@ pub fn plan_world(ws: u64, corpus: &Corpus, o: &PlanOpts) -> World {
         reference.events.push(Event::Expand { tid: 0, input: i as u32 });
     }
     let mut hosts = vec![reference.clone()];
-    let h = rng.range(2, 4);
+    let h = if marathon { 2 } else { rng.range(2, 4) };
     for hi in 0..h {
         // every world keeps one host with no per-host faults besides the reference
         let quiet = hi == 0;
         let mut cfg = HostCfg::reference();
-        let f = if quiet { 0 } else { faults };
+        let f = if quiet { 0 } else if marathon { faults | F_HISTORY } else { faults };
         if f & F_ENTROPY != 0 {
             cfg.entropy_seed = 1 + rng.next_u64() % 0xFFFF_FFFF;
         }
@@ -597,7 +600,7 @@ pub fn plan_world(ws: u64, corpus: &Corpus, o: &PlanOpts) -> World {
         if f & F_HISTORY != 0 {
             // 1 in 12 such hosts runs a marathon: hundreds of expansions in one process
             // (counter wrap-arounds, caches that fill up or expire)
-            let extra = if rng.chance(1, 12) { rng.range(260, 700) } else { rng.range(0, k / 2 + 1) };
+            let extra = if !marathon && rng.chance(1, 12) { rng.range(260, 700) } else { rng.range(0, k / 2 + 1) };
             for _ in 0..extra {
                 order.push(rng.below(k as u64) as u32);
             }
